@@ -124,7 +124,11 @@ func raceBT(seed int64) {
 						if lr.Intn(2) == 0 {
 							mod.Mod = &btapb.ModifyColumnFamiliesRequest_Modification_Drop{Drop: true}
 						}
-						w.ModifyFamilies(tbl, []*btapb.ModifyColumnFamiliesRequest_Modification{mod})
+						target := tbl
+						if k := lr.Intn(3); k > 0 {
+							target = fmt.Sprintf("%s/tables/o%d", parent, k-1) // tables that are being created right now
+						}
+						w.ModifyFamilies(target, []*btapb.ModifyColumnFamiliesRequest_Modification{mod})
 					case 10:
 						w.CreateTable(parent, fmt.Sprintf("o%d", lr.Intn(2)), map[string]*btapb.GcRule{"f1": nil})
 					case 11:
